@@ -81,6 +81,10 @@ impl PanicInfo {
             if c.is_ascii_digit() {
                 if !last_hash { out.push('#'); }
                 last_hash = true;
+            } else if (c == '+' || c == '-') && last_hash {
+                // sign inside a printed offset/range: not part of the class
+                out.push('~');
+                last_hash = false;
             } else {
                 out.push(c);
                 last_hash = false;
